@@ -609,15 +609,20 @@ pub fn sweep(ctx: &Ctx, plan: &SweepPlan, rep: &mut Report, checker: &Checker) -
     };
     let nskel = skels.len() as u64;
     spaces.push(Box::new(SkeletonSpace { label: "E2.k0".into(), skels: skels.clone() }));
+    // one edit: every token edit + boundary-class byte substitutions on the (non-rep3) skeleton
+    // set of the tier; in the thorough tier additionally all 256 byte values on the reduced set
     let k1_skels = if plan.langid_only {
         skels.clone()
     } else if plan.k1_full_skeletons {
-        skels.clone()
+        skeletons(true, false)
     } else {
         skeletons(false, false)
     };
-    let bytes: Vec<u8> = if plan.k1_all_bytes { ByteStrings::all_bytes() } else { BOUNDARY_BYTES.to_vec() };
-    spaces.push(Box::new(EditSpace::new("E2.k1", k1_skels, full.clone(), bytes)));
+    let k1_bytes: Vec<u8> = if plan.langid_only && plan.k1_all_bytes { ByteStrings::all_bytes() } else { BOUNDARY_BYTES.to_vec() };
+    spaces.push(Box::new(EditSpace::new("E2.k1", k1_skels, full.clone(), k1_bytes)));
+    if plan.k1_all_bytes && !plan.langid_only {
+        spaces.push(Box::new(EditSpace::new("E2.k1.allbytes", skeletons(false, false), vec![], ByteStrings::all_bytes())));
+    }
     if plan.k2 {
         let k2_skels = if plan.langid_only { langid_skeletons(false) } else { k2_skeletons() };
         spaces.push(Box::new(EditSpace::new_k2(
@@ -652,14 +657,22 @@ pub fn sweep(ctx: &Ctx, plan: &SweepPlan, rep: &mut Report, checker: &Checker) -
 pub fn k2_skeletons() -> Vec<Skeleton> {
     let mut out = vec![];
     for id in ["en", "und-Latn-US-valencia"] {
-        for (u, t, x, uf) in [
+        let mut shapes: Vec<(&str, &str, &str, bool)> = vec![
             ("", "", "", false),
-            ("u-ca-buddhist", "", "", false),
-            ("", "t-de-h0-hybrid", "", false),
-            ("", "", "x-a", false),
             ("u-abc-ca-buddhist", "t-h0-hybrid", "x-a", false),
             ("u-ca-buddhist", "t-de", "", true),
-        ] {
+            ("u-ca-true-nu-thai", "t-de-k1-true-h0-hybrid", "x-zz-a", false),
+        ];
+        for u in U_SHAPES.iter().skip(1) {
+            shapes.push((u, "", "", false));
+        }
+        for t in T_SHAPES.iter().skip(1) {
+            shapes.push(("", t, "", false));
+        }
+        for x in X_SHAPES.iter().skip(1) {
+            shapes.push(("", "", x, false));
+        }
+        for (u, t, x, uf) in shapes {
             out.push(build_skeleton(id, u, t, x, uf));
         }
     }
